@@ -294,6 +294,36 @@ fn fdt_flood_pkt(template: &[u8], id: u32, len: usize) -> Option<Vec<u8>> {
     Some(out)
 }
 
+/// a copy of an FDT packet with its 20-bit FDT instance id replaced (everything else kept)
+fn fdt_reid_pkt(template: &[u8], id: u32) -> Option<Vec<u8>> {
+    let c = ((template[0] >> 2) & 3) as usize;
+    let s = ((template[1] >> 7) & 1) as usize;
+    let o = ((template[1] >> 5) & 3) as usize;
+    let h = ((template[1] >> 4) & 1) as usize;
+    let ext_off = 4 + (c + 1) * 4 + s * 4 + h * 2 + o * 4 + h * 2;
+    let hdr_len = (template[2] as usize) * 4;
+    if ext_off > hdr_len || hdr_len > template.len() {
+        return None;
+    }
+    let mut out = template.to_vec();
+    let mut p = ext_off;
+    while p + 4 <= hdr_len {
+        let het = template[p];
+        let l = if het >= 128 { 4 } else { (template[p + 1] as usize) * 4 };
+        if l == 0 || p + l > hdr_len {
+            return None;
+        }
+        if het == 192 {
+            out[p + 1] = (template[p + 1] & 0xF0) | ((id >> 16) & 0x0F) as u8;
+            out[p + 2] = (id >> 8) as u8;
+            out[p + 3] = id as u8;
+            return Some(out);
+        }
+        p += l;
+    }
+    None
+}
+
 fn instance_desc(xml: &[u8]) -> String {
     use flute::verif_hooks::fdtinstance::FdtInstance;
     match catch(|| FdtInstance::parse(xml)) {
@@ -515,7 +545,18 @@ pub fn build_session(c: &HashMap<&str, &str>, objs: &[Vec<&str>]) -> Option<Sess
     // attribute, fdtmut=notl strips Transfer-Length; the instance is re-packetised with flute's own
     // new_alc_pkt in place of its first packet
     let fdtmut = c.get("fdtmut").copied().unwrap_or("-");
-    if fdtmut != "-" {
+    if fdtmut == "clmd5" {
+        // payload altered in transit under a content encoding: what the packets inflate to (the object the
+        // harness gave the sender) is the announced content FOLLOWED BY extra bytes; the FDT describes only
+        // its first half (Content-Length, Content-MD5).  Only the MD5 can tell: the object must end in error.
+        if let (Some(toi), Some(full)) = (tois.first(), contents.first()) {
+            let x = full[..full.len() / 2].to_vec();
+            let d = ObjectDesc::create_from_buffer(x.clone(), "a/b", &url::Url::parse("file:///x").unwrap(), true, Default::default()).ok()?;
+            let how = format!("clmd5:{}:{}", x.len(), d.md5.clone().unwrap_or_default());
+            genuine = rewrite_fdt(&genuine, &session_oti, &how);
+            tables.push(format!("C~{:x}~{}", toi, hex(&x)));
+        }
+    } else if fdtmut != "-" {
         genuine = rewrite_fdt(&genuine, &session_oti, fdtmut);
     }
     // optional rewrite of the object packets (a foreign sender): pktmut=ftilast re-encodes every
@@ -616,6 +657,24 @@ fn rewrite_pkts_ftilast(g: &[Vec<u8>], obj_oti: &Oti) -> Vec<Vec<u8>> {
     out
 }
 
+/// every attribute `name="..."` of the document gets the value `val`
+fn set_attr(xml: &str, name: &str, val: &str) -> String {
+    let mut out = String::new();
+    let mut rest = xml;
+    let pat = format!(" {}=\"", name);
+    while let Some(i) = rest.find(&pat) {
+        out.push_str(&rest[..i + pat.len()]);
+        out.push_str(val);
+        let after = &rest[i + pat.len()..];
+        match after.find('"') {
+            Some(q) => rest = &after[q..],
+            None => rest = "",
+        }
+    }
+    out.push_str(rest);
+    out
+}
+
 fn rewrite_fdt(g: &[Vec<u8>], session_oti: &Oti, how: &str) -> Vec<Vec<u8>> {
     use flute::verif_hooks::{alc, pkt};
     let mut parts: HashMap<u32, std::collections::BTreeMap<(u32, u32), Vec<u8>>> = HashMap::new();
@@ -657,6 +716,11 @@ fn rewrite_fdt(g: &[Vec<u8>], session_oti: &Oti, how: &str) -> Vec<Vec<u8>> {
         let text = match how {
             "nooti" => strip_attrs(&text, "FEC-OTI-"),
             "notl" => strip_attrs(&text, "Transfer-Length"),
+            // clmd5:<content length>:<base64 md5>: the instance describes another (shorter) content
+            h if h.starts_with("clmd5:") => {
+                let f: Vec<&str> = h.splitn(3, ':').collect();
+                set_attr(&set_attr(&text, "Content-Length", f[1]), "Content-MD5", f[2])
+            }
             _ => text,
         };
         let bytes = text.into_bytes();
@@ -772,6 +836,54 @@ fn channel(kind: &str, seed: u64, arg: u64, g: &[Vec<u8>]) -> Vec<Vec<u8>> {
                     }
                 }
             }
+        }
+        "fdthalf" => {
+            // after the genuine packets: `arg` further FDT instance ids, each receiving every packet of the first
+            // (multi-packet) instance but its first one: instances that stay unfinished, each holding nearly a
+            // whole instance, until the time-out has elapsed and cleanup ran
+            let first: Vec<Vec<u8>> = {
+                let mut id0 = None;
+                v.iter()
+                    .filter(|p| match flute::core::alc::parse_alc_pkt(p) {
+                        Ok(q) if q.lct.toi == 0 => match q.fdt_info.as_ref() {
+                            Some(fi) => {
+                                if id0.is_none() {
+                                    id0 = Some(fi.fdt_instance_id);
+                                }
+                                id0 == Some(fi.fdt_instance_id)
+                            }
+                            None => false,
+                        },
+                        _ => false,
+                    })
+                    .cloned()
+                    .collect()
+            };
+            if first.len() >= 3 {
+                for k in 0..arg {
+                    for t in first.iter().skip(1) {
+                        if let Some(d) = fdt_reid_pkt(t, 0x800 + k as u32) {
+                            v.push(d);
+                        }
+                    }
+                }
+            }
+        }
+        "tinyflood" => {
+            // no FDT at all; after the genuine object packets (no in-band FTI: all cached), `arg` copies of the
+            // first one cut after its FEC payload id: datagrams with an EMPTY symbol, which cost the receiver
+            // far more to keep than the bytes they count for in the cache limit
+            let mut w: Vec<Vec<u8>> = v
+                .into_iter()
+                .filter(|p| !matches!(flute::core::alc::parse_alc_pkt(p), Ok(ref q) if q.lct.toi == 0))
+                .collect();
+            let cut = w.first().and_then(|t| flute::core::alc::parse_alc_pkt(t).ok().map(|pk| t[..pk.data_payload_offset].to_vec()));
+            if let Some(cut) = cut {
+                for _ in 0..arg {
+                    w.push(cut.clone());
+                }
+            }
+            v = w;
         }
         "nofdt" | "holes" | "holesb" | "halffdt" => {
             // nofdt: no TOI-0 packet at all; holes: the symbol with ESI = arg of every block is lost
@@ -1057,6 +1169,15 @@ fn gen(args: &Args, emit: &mut dyn FnMut(String)) {
         };
         let fti = rng.below(2);
         let fdtmut = if fti == 1 && rng.chance(1, 6) { " fdtmut=nooti" } else if rng.chance(1, 30) { " fdtmut=notl" } else { "" };
+        // content-encoded object whose FDT describes only a prefix of what the packets inflate to (MD5 announced)
+        if i % 40 == 7 && fec != "raptor" {
+            let ce = *rng.pick(&["zlib", "deflate", "gzip"]);
+            emit(format!(
+                "V fec={} e={} b={} par={} cenc={} fti={} icenc={} mode=full il=1 once=1 maxerr=0 cache=10485760 md5={} tc=1 bld=S opn=1 fdtmut=clmd5 ; O {} {} 0 1 ; X {} 1 0",
+                fec, e, b, par, ce, fti, rng.below(2), if rng.chance(1, 5) { 0 } else { 1 }, rng.range(2, (e * b) as u64 * 3 + 2), i % 17,
+                *rng.pick(&["all", "all", "perm", "dup"])
+            ));
+        }
         emit(format!(
             "V fec={} e={} b={} par={} cenc={} fti={} icenc={} mode={} il={} once={} maxerr={} cache={} md5={} tc={} bld={} opn={}{}{} ; {} ; X {} {} {}{}",
             fec,
@@ -1105,7 +1226,14 @@ fn gen_mem(args: &Args, emit: &mut dyn FnMut(String)) {
         let cache = *rng.pick(&[64u64, 256, 1024, 4096, 10485760]);
         let maxerr = *rng.pick(&[0u32, 1, 3]);
         let (fec, par) = if rng.chance(1, 3) { ("rs28", 1) } else { ("nocode", 0) };
-        let scenario = if i % 60 == 59 { 7 } else if nobj >= 3 { rng.below(7) } else { rng.below(6) };
+        let scenario = if i % 60 == 59 { 7 } else if i % 60 == 29 { 8 } else if i % 60 == 44 { 9 } else if nobj >= 3 { rng.below(7) } else { rng.below(6) };
+        // scenario 8: one small object, a small cache, thousands of empty-symbol datagrams
+        let (nobj, osecs, cache, fec, par) = if scenario == 8 {
+            (1u64, vec![format!("O {} {} 0 0", (e * b) as u64 * 2, i % 13)], *rng.pick(&[64u64, 256]), "nocode", 0)
+        } else {
+            (nobj, osecs, cache, fec, par)
+        };
+        let _ = nobj;
         let (fti, xk, xa, extra, ev): (u32, &str, u64, String, String) = match scenario {
             // packets without FTI and no FDT: everything is cached
             0 => (0, "nofdt", 0, String::new(), String::new()),
@@ -1118,7 +1246,7 @@ fn gen_mem(args: &Args, emit: &mut dyn FnMut(String)) {
             // stalled objects and unfinished FDT instances released by cleanup after the time-out
             4 => {
                 let n = rng.range(5, 40);
-                (1, "holes", 0, format!(" otimeout=25 fdte={} mode=bt", rng.pick(&[32u32, 1400])), format!(" ; E sleep@{}:60,cleanup@{}", n, n))
+                (1, "holes", 0, format!(" otimeout=25 fdte={} mode=bt{}", rng.pick(&[32u32, 1400]), if rng.chance(1, 2) { " exp=0" } else { "" }), format!(" ; E sleep@{}:60,cleanup@{}", n, n))
             }
             5 => {
                 let n = rng.range(5, 60);
@@ -1126,7 +1254,13 @@ fn gen_mem(args: &Args, emit: &mut dyn FnMut(String)) {
             }
             // FDT instances that fail WITHOUT ever getting a writer (no EXT_FTI, cache overflow) must be
             // released by the cleanup after the time-out like the others
-            7 => (1, "fdtflood", 70, " otimeout=25".to_string(), " ; E sleepend:60,cleanup@end".to_string()),
+            // (with and without the FDT expiry check: releasing unfinished instances does not depend on it)
+            7 => (1, "fdtflood", 70, format!(" otimeout=25{}", if (i / 60 + args.shard.0) % 2 == 0 { " exp=0" } else { "" }), " ; E sleepend:60,cleanup@end".to_string()),
+            // many FDT instances that stay unfinished (one packet of each missing), released by cleanup after the
+            // time-out whether or not the FDT expiry check is enabled
+            9 => (1, "fdthalf", 30, format!(" otimeout=25 fdte=32{}", if (i / 60 + args.shard.0) % 2 == 0 { " exp=0" } else { "" }), " ; E sleepend:60,cleanup@end".to_string()),
+            // empty-symbol datagrams of an object whose OTI never arrives: the cache limit must still bound what is kept
+            8 => (0, "tinyflood", 3000, String::new(), String::new()),
             // an object stalls, later objects bring new FDT instances at intervals shorter than the
             // time-out: the stalled ones must still be released (only their own packets are activity)
             _ => {
@@ -1183,7 +1317,8 @@ fn gen_session(args: &Args, emit: &mut dyn FnMut(String)) {
                 5 => eb,
                 6 => eb + 1,
                 7 => eb * 2 + rng.below(e as u64 + 1),
-                8 if fec == "rs28" || fec == "raptorq" => eb * 255 + rng.below(3),   // at / above 255 blocks
+                // at / just above the 255 blocks of the scheme's maximum, and well above it (the 8-bit block number wraps)
+                8 if fec == "rs28" || fec == "raptorq" => eb * 255 + if rng.chance(1, 3) { eb * 2 + rng.below(3) } else { rng.below(3) },
                 _ => rng.range(1, eb * 4 + 2),
             };
             let prio = if two_queues && rng.chance(1, 2) { 3 } else { 0 };
